@@ -380,17 +380,30 @@ def r155(prog, chk):
     oks = len(sup) == 1 and not may_conds(prog, ac, sup[0]) and T(sup[0].args[1]) == ac.params()[2]
     chk.ob("R15.5", f"{tp.name}|inverse of the pen's own matrix; every component still goes through the transforming parent", ok and oks, where(init), detail="self._inverted = self._transformation.inverse()",
            message=f"{tp.name}: the compensation is not the inverse of the pen's matrix, or compensated components bypass the parent pen")
-    # matrix build order
+    # matrix build order (in set_context itself, or in the helper method whose result it stores as the matrix)
     sc = tf.methods["set_context"]
+    st = [(s, t, v) for s, t, v in attr_stores(sc, "matrix")]
+    bf, via_helper = sc, False
+    if len(st) == 1:
+        v = st[0][2]
+        if isinstance(v, ast.Name):
+            ds = prog.reaching(sc, v.id, v)
+            if len(ds) == 1 and ds[0].value is not None:
+                v = ds[0].value
+        if isinstance(v, ast.Call) and isinstance(v.func, ast.Attribute) and T(v.func.value) == "self" and v.func.attr in tf.methods:
+            bf, via_helper = tf.methods[v.func.attr], True
     seq = []
-    for s in A.stmts_of(sc.node):
+    for s in A.stmts_of(bf.node):
         if isinstance(s, ast.Assign) and isinstance(s.value, ast.Call) and isinstance(s.value.func, ast.Attribute) and isinstance(s.value.func.value, ast.Name) and isinstance(s.targets[0], ast.Name) \
                 and s.targets[0].id == s.value.func.value.id and s.value.func.attr in ("translate", "scale", "skew", "rotate", "transform"):
             seq.append(s.value.func.attr)
     ok = seq == ["translate", "translate", "scale", "skew", "translate"]
-    m_init = [s for s in A.stmts_of(sc.node) if isinstance(s, ast.Assign) and isinstance(s.value, (ast.Name, ast.Attribute)) and ext_name(prog, sc, s.value) == "fontTools.misc.transform.Identity"]
-    st = [(s, t, v) for s, t, v in attr_stores(sc, "matrix")]
-    ok = ok and len(m_init) == 1 and len(st) == 1 and T(st[0][2]) == m_init[0].targets[0].id
+    m_init = [s for s in A.stmts_of(bf.node) if isinstance(s, ast.Assign) and isinstance(s.value, (ast.Name, ast.Attribute)) and ext_name(prog, bf, s.value) == "fontTools.misc.transform.Identity"]
+    if via_helper:
+        rets = A.returns_of(bf.node)
+        ok = ok and len(m_init) == 1 and len(st) == 1 and bool(rets) and all(r.value is not None and T(r.value) == m_init[0].targets[0].id for r in rets)
+    else:
+        ok = ok and len(m_init) == 1 and len(st) == 1 and T(st[0][2]) == m_init[0].targets[0].id
     chk.ob("R15.5", f"{sc.short}|matrix = offset, then (to origin, scale, slant, back) built with the Transform algebra from Identity", ok, where(sc), detail=" -> ".join(seq),
            message=f"{sc.short}: the order in which offset / origin shift / scale / slant are composed changed ({seq})")
     chk.minimum("R15.5", 9)
